@@ -441,11 +441,18 @@ def main():
                 dmg_idx = damage(root, job["damage"]) if job.get("damage") else None
                 rejected = None
                 if job.get("damage"):
-                    try:
-                        H.decode(Dataset(root), root / damaged_path(root, job["damage"]))
-                        rejected = False
-                    except BaseException as ex:  # noqa: BLE001
-                        rejected = type(ex).__name__
+                    box = {}
+
+                    def probe():
+                        try:
+                            H.decode(Dataset(root), root / damaged_path(root, job["damage"]))
+                            box["r"] = False
+                        except BaseException as ex:  # noqa: BLE001
+                            box["r"] = type(ex).__name__
+                    pt = threading.Thread(target=probe, daemon=True)
+                    pt.start()
+                    pt.join(10)
+                    rejected = box.get("r", "hang")       # a decoder that never returns does not accept the file either
             except Exception as ex:  # noqa: BLE001
                 res.append({"build_error": f"{type(ex).__name__}: {ex}"[:300]})
                 continue
